@@ -126,6 +126,15 @@ func (f *frame) doCall(v *ssa.Call, st *State, reach string) {
 		return
 	}
 	if _, isB := com.Value.(*ssa.Builtin); !isB {
+		if fv, ok := f.vals[com.Value]; ok && fv.uf != "" {
+			var as []string
+			for _, a := range args {
+				as = append(as, a.term)
+			}
+			rt := v.Call.Signature().Results().At(0).Type()
+			f.vals[v] = Val{term: e.define(v.Name(), e.sc.sortOf(rt), "("+fv.uf+" "+strings.Join(as, " ")+")"), typ: rt}
+			return
+		}
 		if fv, ok := f.vals[com.Value]; ok && fv.cb != "" {
 			// ghost callback: records its first argument in the ghost set
 			n := "G_" + fv.cb
@@ -155,10 +164,7 @@ func (f *frame) doCall(v *ssa.Call, st *State, reach string) {
 	if rc := f.rootCtr(); rc != nil {
 		for cn, set := range rc.GhostCalls {
 			if shortFn(callee) == cn || callee.Name() == cn {
-				ai := 0
-				if callee.Signature.Recv() != nil {
-					ai = 1
-				}
+				ai := ghostArgIndex(callee, rc.GhostArg[cn])
 				if ai >= len(args) {
 					panic("ghostcall: " + cn + " has no argument")
 				}
@@ -173,7 +179,7 @@ func (f *frame) doCall(v *ssa.Call, st *State, reach string) {
 			}
 		}
 	}
-	if ctr, ok := e.contracts[name]; ok && (ctr.Mode == e.sc.arith || ctr.Mode == "both") {
+	if ctr, ok := e.contracts[name]; ok && (ctr.Mode == e.sc.arith || ctr.Mode == "both") && f.pureArgsOK(callee, ctr, args) {
 		f.callByContract(v, callee, ctr, args, st, reach)
 		return
 	}
@@ -208,6 +214,27 @@ func (f *frame) evalSpecAtSite(src string, st *State, env map[string]Val) (term 
 		}
 	}()
 	return f.evalSpec(src, st, env, nil), true
+}
+
+// pureArgsOK: a contract that models a function-typed parameter as a pure
+// function can only be used at a call site whose argument is itself such a
+// function symbol; a closure argument makes the caller inline the callee instead.
+func (f *frame) pureArgsOK(callee *ssa.Function, ctr *Contract, args []Val) bool {
+	for _, pf := range ctr.PureFns {
+		for i, p := range callee.Params {
+			if p.Name() == pf && i < len(args) && args[i].uf == "" {
+				return false
+			}
+		}
+	}
+	for cbp := range ctr.Callbacks {
+		for i, p := range callee.Params {
+			if p.Name() == cbp && i < len(args) && args[i].cb == "" {
+				return false
+			}
+		}
+	}
+	return true
 }
 
 func (f *frame) wouldInlineClosure(fn *ssa.Function) bool {
@@ -971,4 +998,21 @@ func instrCount(fn *ssa.Function) int {
 		n += len(b.Instrs)
 	}
 	return n
+}
+
+// ghostArgIndex: index (in Params/args, receiver included) of the parameter a
+// ghostcall records.
+func ghostArgIndex(callee *ssa.Function, pname string) int {
+	if pname != "" {
+		for i, p := range callee.Params {
+			if p.Name() == pname {
+				return i
+			}
+		}
+		panic("ghostcall: no parameter " + pname)
+	}
+	if callee.Signature.Recv() != nil {
+		return 1
+	}
+	return 0
 }
